@@ -325,6 +325,7 @@ func (x *Exec) frameObligations(st *State, con *Contract, pos token.Pos) {
 func (e *Engine) solveUnit(w *World, res *UnitResult, workdir string, timeoutS int, all bool) {
 	type job struct {
 		script string
+		rich   string
 		plain  string
 		file   string
 		obls   []*Obligation
@@ -336,7 +337,12 @@ func (e *Engine) solveUnit(w *World, res *UnitResult, workdir string, timeoutS i
 		if o.Status != "" {
 			continue
 		}
-		var script, plain string
+		if e.prop != "" && o.Kind != "vacuity" && !res.Canary && !hasTag(o.Tags, e.prop) {
+			// not an obligation of the property being checked: not solved, not reported
+			o.Status = "skipped"
+			continue
+		}
+		var script, plain, rich string
 		if o.Kind == "vacuity" {
 			script = w.Script(o.Assume, nil, false)
 		} else {
@@ -345,11 +351,17 @@ func (e *Engine) solveUnit(w *World, res *UnitResult, workdir string, timeoutS i
 			plain = w.Script(o.Assume, o.Goal, true)
 			if plain == script {
 				plain = ""
+			} else {
+				as2, g2 := instantiateMode(w, o.Assume, o.Goal, true)
+				rich = w.Script(as2, g2, true)
+				if rich == script {
+					rich = ""
+				}
 			}
 		}
 		j := jobs[script]
 		if j == nil {
-			j = &job{script: script, plain: plain, file: filepath.Join(workdir, fmt.Sprintf("%s_%04d.smt2", smtName(res.Key), i)), vac: o.Kind == "vacuity"}
+			j = &job{script: script, rich: rich, plain: plain, file: filepath.Join(workdir, fmt.Sprintf("%s_%04d.smt2", smtName(res.Key), i)), vac: o.Kind == "vacuity"}
 			jobs[script] = j
 			order = append(order, j)
 		}
@@ -363,6 +375,13 @@ func (e *Engine) solveUnit(w *World, res *UnitResult, workdir string, timeoutS i
 			defer wg.Done()
 			t := timeoutS
 			r := solve(j.script, j.file, t, all && !j.vac, nil)
+			if r.status != "unsat" && j.rich != "" {
+				r1 := solve(j.rich, strings.TrimSuffix(j.file, ".smt2")+"_rich.smt2", t, false, nil)
+				if r1.status == "unsat" {
+					r1.secs += r.secs
+					r = r1
+				}
+			}
 			if r.status != "unsat" && j.plain != "" {
 				// the instantiated query did not close: ask for a verdict (and a model) on the plain one
 				r2 := solve(j.plain, strings.TrimSuffix(j.file, ".smt2")+"_plain.smt2", t, false, nil)
